@@ -151,6 +151,103 @@ def r14_3(chk, facts):
                 chk.fail('R14.3', site, fn['file'], c.get('l'), 'array index parsed with dec_to_integer in %s without rejecting leading zeros (RFC 6901 section 4: "/01" is not index 1)' % fn['n'], None, fn['q'])
     chk.require(n >= 4, 'R14.3: only %d index conversions found' % n)
 
+# basic_json members that modify the addressed document (frozen vocabulary; accessors such as at()/array_range() are non-const but do not modify)
+MUTATORS = {'emplace_back', 'push_back', 'insert', 'insert_or_assign', 'try_emplace', 'emplace', 'erase', 'clear', 'swap', 'merge',
+            'merge_or_update', 'resize', 'remove', 'operator='}
+
+def mutating_ops(fn, g):
+    """CFG nodes of fn that modify the document through a Json member call or a Json assignment."""
+    out = []
+    for nd in g.rpo:
+        if nd.kind not in ('stmt', 'cond', 'return'): continue
+        for c in A.calls_in(nd.ast, no_lambda=True):
+            cq = c.get('cq') or ''
+            if 'basic_json' not in cq: continue
+            nm = A.callee_name(c)
+            if c.get('k') == 'CXXOperatorCallExpr' and c.get('oop') == '=': nm = 'operator='
+            if nm in MUTATORS and not c.get('cconst'):
+                out.append((nd, c, nm))
+    return out
+
+def ec_stores(g):
+    return [nd for nd in g.rpo if nd.kind == 'stmt' and U.assigned_member(nd.ast) and U.assigned_member(nd.ast)[0] == 'ec']
+
+def r14_4(chk, facts):
+    chk.rule('R14.4', 'error before mutation: in add, add_if_absent, replace, remove and the mutable resolve(), no error code is stored on a path '
+                      'that has already modified the document (a failing call leaves the document untouched)', floor=6)
+    fns = [f for f in facts.functions if f['file'].endswith('jsonpointer.hpp') and not f.get('dep') and f.get('body') is not None
+           and f['n'] in ('add', 'add_if_absent', 'replace', 'remove', 'resolve', 'get')]
+    n = 0
+    for fn in U.one_per_inst(fns):
+        g = C.CFG(fn['body'])
+        muts = mutating_ops(fn, g)
+        if not muts: continue
+        errs = ec_stores(g)
+        chk.analysed(fn)
+        for i, (nd, c, nm) in enumerate(muts):
+            n += 1
+            site = U.site(fn, 'mutation %s#%d' % (nm, i + 1))
+            after = [e for e in errs if e is not nd and any(g.can_reach(s2, [e]) for s2 in nd.succ)]
+            if nm == 'try_emplace' and nd.ast.get('k') == 'DeclStmt':
+                # try_emplace leaves the object alone when the key exists: an error stored under `!r.second` follows no modification
+                rv = [d.get('n') for d in nd.ast.get('decls') or []]
+                def under_not_inserted(e):
+                    for a, lab, ed in g.guards(e):
+                        t = A.text(a)
+                        if any(('%s.second' % v) in t for v in rv) and ((lab is False and not t.lstrip('(').startswith('!')) or (lab is True and t.lstrip('(').startswith('!'))):
+                            return True
+                    return False
+                after = [e for e in after if not under_not_inserted(e)]
+            if not after: chk.ok('R14.4', site, {'line': c.get('l'), 'error_stores_in_function': len(errs)})
+            else:
+                chk.fail('R14.4', site, fn['file'], c.get('l'), '%s: the document is modified by %s() at line %s and an error is stored afterwards at line %s: the call fails and leaves the document changed' % (
+                    fn['n'], nm, c.get('l'), after[0].ast.get('l')), {'mutation_line': c.get('l'), 'error_line': after[0].ast.get('l')}, fn['q'])
+    chk.require(n >= 6, 'R14.4: only %d mutation sites found in the pointer operations' % n)
+
+def r14_5(chk, facts):
+    chk.rule('R14.5', 'array positions: every use of a converted index as an array position is dominated by the exact bounds rejection '
+                      '(index >= size() for access, replace and erase; index > size() with index == size() appending, for insertion)', floor=6)
+    fns = [f for f in facts.functions if f['file'].endswith('jsonpointer.hpp') and not f.get('dep') and f.get('body') is not None]
+    n = 0
+    for fn in U.one_per_inst(fns):
+        convs = [c for c in A.walk_no_lambda(fn['body']) if c.get('k') == 'CallExpr' and A.callee_name(c) == 'dec_to_integer']
+        if not convs: continue
+        idx_names = set()
+        for c in convs:
+            args = c.get('args') or []
+            if len(args) >= 3 and A.ref_name(args[2]): idx_names.add(A.ref_name(args[2]))
+        if not idx_names: continue
+        g = C.CFG(fn['body'])
+        chk.analysed(fn)
+        k = 0
+        for nd in g.rpo:
+            if nd.kind not in ('stmt', 'cond', 'return'): continue
+            for c in A.calls_in(nd.ast, no_lambda=True):
+                nm = A.callee_name(c)
+                if 'basic_json' not in (c.get('cq') or '') or nm not in ('at', 'erase', 'insert', 'operator[]'): continue
+                if not any(A.ref_name(y) in idx_names for a in c.get('args') or [] for y in A.walk(a) if y.get('k') == 'DeclRefExpr'): continue
+                k += 1; n += 1
+                tests = set()
+                for a, lab, e in g.guards(nd):
+                    cmp_ = G.comparison(a)
+                    if not cmp_: continue
+                    op, l, r = cmp_
+                    if A.ref_name(l) in idx_names and any(A.callee_name(z) == 'size' for z in A.calls_in(r)) and 'size() -' not in A.text(r) and 'size() +' not in A.text(r):
+                        tests.add((op, bool(lab)))
+                    elif A.ref_name(r) in idx_names and any(A.callee_name(z) == 'size' for z in A.calls_in(l)):
+                        tests.add((G.FLIP[op], bool(lab)))
+                if nm == 'insert':
+                    ok = ((('>', False) in tests or ('<=', True) in tests) and (('==', False) in tests or ('!=', True) in tests)) or ('<', True) in tests or ('>=', False) in tests
+                    want = 'index > size() rejected and index == size() handled by appending'
+                else:
+                    ok = ('>=', False) in tests or ('<', True) in tests
+                    want = 'index >= size() rejected'
+                site = U.site(fn, 'position use %s#%d' % (nm, k))
+                if ok: chk.ok('R14.5', site, {'line': c.get('l'), 'dominating_tests': sorted(tests)})
+                else: chk.fail('R14.5', site, fn['file'], c.get('l'), '%s: %s(…index…) at line %s is not dominated by the bounds test (%s); dominating tests on the index: %s' % (
+                    fn['n'], nm, c.get('l'), want, sorted(tests)), {'tests': sorted(tests)}, fn['q'])
+    chk.require(n >= 6, 'R14.5: only %d index uses found' % n)
+
 def run(chk, tier, only_rule=None):
     chk.explanation = EXPLANATION
     chk.not_decided = NOT_DECIDED
@@ -159,3 +256,5 @@ def run(chk, tier, only_rule=None):
     r14_1(chk, facts)
     r14_2(chk, facts)
     r14_3(chk, facts)
+    r14_4(chk, facts)
+    r14_5(chk, facts)
